@@ -42,8 +42,8 @@ impl Property for C11 {
 
     fn runs(&self, tier: Tier) -> u64 {
         match tier {
-            Tier::Quick => 10 * 4,
-            Tier::Thorough => 10 * 40,
+            Tier::Quick => 10 * 4 * 4,
+            Tier::Thorough => 10 * 4 * 200,
         }
     }
 
